@@ -248,7 +248,7 @@ def gen_case(rng):
 
 def correspondence(pid, tier, seed):
     rng = random.Random(seed * 7001 + 3)
-    n = 600 if tier == 'quick' else 8000
+    n = lib.size(600, 8000, tier)
     cases = [gen_case(rng) for _ in range(n)]
     outs = [run_impl(c) for c in cases]
     pairs = [(c, r) for c, r in zip(cases, outs) if not r.get('skip')]
